@@ -12,10 +12,18 @@ model: coq/Makefile
 	$(MAKE) -C coq -j16 --no-print-directory Algos.vo Reports.vo Session.vo Digest.vo
 proofs: coq/Makefile
 	$(MAKE) -C coq -j16 --no-print-directory
-coq/extract/btmodel: model coq/extract/Extract.v coq/extract/driver.ml coq/Algos.vo coq/Reports.vo coq/Digest.vo
-	cd coq/extract && coqc -Q .. BT Extract.v > /dev/null && \
-	ocamlfind ocamlopt -rectypes -thread -package coq-core.kernel -linkpkg -w -a model.mli model.ml driver.ml -o btmodel
-extract: coq/extract/btmodel
+# the extracted driver: rebuilt only when one of its inputs is newer (the test is in the recipe because the .vo files are
+# produced by the sub-make), and moved into place atomically so that a check running at the same time never finds it missing
+EXTRACT_INPUTS = Extract.v driver.ml ../Algos.vo ../Reports.vo ../Session.vo ../Digest.vo
+extract: model
+	@cd coq/extract && stale=0; [ -x btmodel ] || stale=1; \
+	for f in $(EXTRACT_INPUTS); do [ $$f -nt btmodel ] && stale=1; done; \
+	if [ $$stale = 1 ]; then \
+	  echo "extracting and linking coq/extract/btmodel"; \
+	  coqc -Q .. BT Extract.v > /dev/null && \
+	  ocamlfind ocamlopt -rectypes -thread -package coq-core.kernel -linkpkg -w -a model.mli model.ml driver.ml -o btmodel.new && \
+	  mv -f btmodel.new btmodel; \
+	fi
 clean:
 	-$(MAKE) -C coq clean
 	rm -f coq/Makefile coq/Makefile.conf coq/extract/model.ml coq/extract/model.mli coq/extract/btmodel coq/extract/*.cm* coq/extract/*.o coq/extract/*.vo*
